@@ -7,7 +7,7 @@
    (ObjectAlignmenter::Check), fewer than 2^32 columns in one call. *)
 From Coq Require Import ZArith List Bool.
 From MomoCommon Require Import GenPrelude.
-From C18 Require Gen_Vertices Gen_Ceil Model Layout Fill Vertices Bits Inv Main RawLife Static.
+From C18 Require Gen_Vertices Gen_Ceil Gen_List Model Layout Fill Vertices Bits Inv Main RawLife Static.
 Import ListNotations.
 Local Open Scope Z_scope.
 
@@ -45,9 +45,11 @@ Theorem C18_reachable_layout_ok :
 Proof. exact Main.reachable_layout. Qed.
 Print Assumptions C18_reachable_layout_ok.
 
-(* (2) the generated GetVertices: both vertices index into the vertex arrays and differ (AddEdges' extra check) *)
+(* (2) the generated GetVertices: both vertices index into the vertex arrays and differ (AddEdges' extra check), for
+   every code parameter up to the SOURCE's maxCodeParam (Gen_Vertices.maxCodeParam is emitted by cxx2coq from
+   DataColumnTraits; raising it, e.g. to 1023, makes this theorem unprovable for logVertexCount 4 and 5) *)
 Theorem C18_getvertices_in_range_distinct :
-  forall L code cp, 4 <= L <= 15 -> 0 <= cp <= 255 ->
+  forall L code cp, 4 <= L <= 15 -> 0 <= cp <= Gen_Vertices.maxCodeParam ->
     0 <= fst (Gen_Vertices.GetVertices L code cp) < 2 ^ L /\ 0 <= snd (Gen_Vertices.GetVertices L code cp) < 2 ^ L /\
     fst (Gen_Vertices.GetVertices L code cp) <> snd (Gen_Vertices.GetVertices L code cp).
 Proof. exact Vertices.GetVertices_range. Qed.
@@ -267,6 +269,75 @@ Theorem C18_raw_create_destroy_once :
     RawLife.count (RawLife.Ctor c) t = 1%nat /\ RawLife.count (RawLife.Dtor c) t = 1%nat.
 Proof. exact RawLife.raw_create_destroy_once. Qed.
 Print Assumptions C18_raw_create_destroy_once.
+
+(* ---- round 4 (model growth): more of the code under the theorems ---- *)
+
+(* the constants of the model are the source's (cxx2coq emit_consts): what they evaluate to *)
+Theorem C18_source_constants :
+  forall L, 4 <= L <= 15 ->
+    Gen_List.vertexCount L = 2 ^ L /\ Gen_Vertices.maxColumnCount L = 2 ^ (L - 1) /\ Gen_Vertices.maxCodeParam = 255.
+Proof. exact Inv.source_constants. Qed.
+Print Assumptions C18_source_constants.
+
+(* the cxx2coq translation of the real DataColumnList::pvGetOffset IS the model's lookup (Ok <-> Some, Stuck = the
+   MOMO_ASSERT(addend1 != 0 && addend2 != 0) <-> None) *)
+Theorem C18_generated_pvGetOffset_is_lookup :
+  forall L cp a code, Model.lookup_gen L cp a code = Model.lookup L cp a code.
+Proof. exact Inv.lookup_refines. Qed.
+Print Assumptions C18_generated_pvGetOffset_is_lookup.
+
+(* ... and on the members of every reachable state (any history, any allocation failures) the GENERATED pvGetOffset
+   returns the recorded offset of every column and never trips its assertion *)
+Theorem C18_generated_pvGetOffset_yields_offset :
+  forall L keep, 4 <= L <= 15 -> forall ops, Forall (fun op => Inv.group_ok (snd op)) ops ->
+    forall r, In r (Model.columns (Model.run_f L keep ops)) ->
+      Gen_List.pvGetOffset (Model.GetVertices L) (Model.codeParam (Model.run_f L keep ops)) (Model.addends (Model.run_f L keep ops))
+                           (Model.totalSize (Model.run_f L keep ops)) (Model.alignment (Model.run_f L keep ops)) (Model.r_code r)
+      = Ok (Model.r_off r).
+Proof. exact Main.reachable_generated_pvGetOffset. Qed.
+Print Assumptions C18_generated_pvGetOffset_yields_offset.
+
+(* index bounds: in every reachable state mCodeParam <= maxCodeParam, and the vertex indices computed from it for ANY
+   column code (added or not: Contains, GetOffset, the next Add) are inside mAddends / Graph::mEdges *)
+Theorem C18_reachable_indices_in_bounds :
+  forall L keep, 4 <= L <= 15 -> forall ops code, Forall (fun op => Inv.group_ok (snd op)) ops ->
+    let cp := Model.codeParam (Model.run_f L keep ops) in
+    0 <= cp <= Model.maxCodeParam /\
+    0 <= fst (Model.GetVertices L code cp) < Model.vertexCount L /\ 0 <= snd (Model.GetVertices L code cp) < Model.vertexCount L.
+Proof. exact Main.reachable_indices_in_bounds. Qed.
+Print Assumptions C18_reachable_indices_in_bounds.
+
+(* OBSERVATION (not a violation): only 16 of the 256 code parameters differ.  For codeParam = 16 p + q the vertices are
+   those of parameter (p xor q), relabelled by the bijection v |-> v xor p ... *)
+Theorem C18_obs_param_xor :
+  forall L code p q, 4 <= L <= 15 -> 0 <= p < 16 -> 0 <= q < 16 ->
+    Gen_Vertices.GetVertices L code (16 * p + q) =
+    (Z.lxor (fst (Gen_Vertices.GetVertices L code (Z.lxor p q))) p, Z.lxor (snd (Gen_Vertices.GetVertices L code (Z.lxor p q))) p).
+Proof. exact Vertices.GetVertices_param_xor. Qed.
+Print Assumptions C18_obs_param_xor.
+
+(* ... so the whole edge structure handed to FillAddends for (p, q) is the one for (0, p xor q) under that relabelling:
+   one has a cycle iff the other has, and the search loop of pvAdd really has 16 different attempts *)
+Theorem C18_obs_param_graph_isomorphic :
+  forall L, 4 <= L <= 15 -> forall rs p q v v2 val, 0 <= p < 16 -> 0 <= q < 16 ->
+    (In (v2, val) (Model.old_edges L (16 * p + q) Model.g_empty rs v) <->
+     In (Z.lxor v2 p, val) (Model.old_edges L (Z.lxor p q) Model.g_empty rs (Z.lxor v p))).
+Proof. exact Inv.param_graph_isomorphic. Qed.
+Print Assumptions C18_obs_param_graph_isomorphic.
+
+(* pvCreateRaw with its funcIndex bookkeeping (index loop, catch destroys the records below funcIndex) is the structural
+   model the row theorems are about *)
+Theorem C18_create_raw_funcindex_loop :
+  forall groups k, RawLife.create_raw_idx (S (length groups)) k groups 0 = RawLife.create_raw k [] groups.
+Proof. exact RawLife.create_raw_idx_ok. Qed.
+Print Assumptions C18_create_raw_funcindex_loop.
+
+(* ... and incrementing funcIndex BEFORE the createFunc call is refuted: the failing group is destroyed twice *)
+Theorem C18_create_raw_preincrement_refuted :
+  fst (RawLife.create_raw_preinc 3 (Some 1%nat) [[0%nat; 1%nat]] 0) = [RawLife.Ctor 0; RawLife.Dtor 0; RawLife.Dtor 0; RawLife.Dtor 1] /\
+  fst (RawLife.create_raw_idx 3 (Some 1%nat) [[0%nat; 1%nat]] 0) = [RawLife.Ctor 0; RawLife.Dtor 0].
+Proof. exact RawLife.preincrement_destroys_twice. Qed.
+Print Assumptions C18_create_raw_preincrement_refuted.
 
 (* non-vacuity: a history whose third Add needs the second code parameter, a refused duplicate, "Too many columns" *)
 Theorem C18_example_retry :
